@@ -1,6 +1,6 @@
 (* C09 -- the conditional transformation is Bayes' rule and is invertible. *)
 From mathcomp Require Import all_ssreflect all_algebra.
-From GT Require Import Tensor DetExec LogDom Obj Factor Measure Pdf Cond EvalLemmas Spec C01_proofs PdfLemmas C04_proofs C05_proofs C06_proofs C0809_proofs C1013_proofs.
+From GT Require Import Tensor DetExec LogDom Obj Factor Measure Pdf Cond EvalLemmas Spec C01_proofs PdfLemmas C04_proofs C05_proofs C06_proofs C0809_proofs C1013_proofs C07_proofs Extra_proofs C12_cond.
 Import GRing.Theory Num.Theory.
 Local Open Scope ring_scope.
 
@@ -34,7 +34,23 @@ Theorem C09_invertible (c : cond LS) (p : measure LS) :
       cvf (uD p) (getmu pback 0%N) = muv p 0%N
     & mxf (uD p) (uD p) (getS pback 0%N) = Sg p 0%N].
 Proof. exact: cond_transform_involutive. Qed.
+(* batched round trip, slice-wise (no restriction on the batch layout): component k of the posterior conditional
+   and of p(y), transformed back, recover the conditional's component jrc p k and p(x)'s component jrx p k *)
+Theorem C09_invertible_batched (c : cond LS) (p : measure LS) k :
+  pdf_ok p -> cond_ok c -> cDx c = uD p -> ~~ cident (ccl c) -> marg_pos c p -> post_pos c p ->
+  (k < cR c * uR p)%N ->
+  let ck := cslice [:: Posz k] (affine_conditional c p) in
+  let qk := uslice [:: Posz k] (affine_marginal c p) in
+  let back := affine_conditional ck qk in
+  let pback := affine_marginal ck qk in
+  [/\ mxf (cDy c) (cDx c) (cM back 0%N) = mxf (cDy c) (cDx c) (cM c (jrc p k)),
+      cvf (cDy c) (cb back 0%N) = cvf (cDy c) (cb c (jrc p k)),
+      mxf (cDy c) (cDy c) (cSig back 0%N) = cSg c (jrc p k),
+      cvf (uD p) (getmu pback 0%N) = muv p (jrx p k)
+    & mxf (uD p) (uD p) (getS pback 0%N) = Sg p (jrx p k)].
+Proof. exact: cond_transform_involutive_batched. Qed.
 End C09.
 Print Assumptions C09_bayes_rule.
 Print Assumptions C09_posterior_wellformed.
 Print Assumptions C09_invertible.
+Print Assumptions C09_invertible_batched.
